@@ -67,10 +67,23 @@ def build(case):
     for a in case['arrays']:
         rng = np.random.default_rng(a['seed'])
         n = a['n']
-        pa = get_particle_array(name=a['name'], x=np.array(a['x']),
-                                tag=np.array(a['tags'], dtype=np.int32),
-                                constants={k: np.array(v) for k, v in
-                                           a['consts'].items()} or None)
+        consts = {k: np.array(v) for k, v in a['consts'].items()} or None
+        if a['seed'] % 3 == 0:
+            # an array of non-local particles (a ghost / mirror array): new
+            # particles default to that tag (documented constructor argument)
+            from pysph.base.particle_array import ParticleArray
+            pa = ParticleArray(name=a['name'],
+                               default_particle_tag=int(1 + a['seed'] % 2),
+                               constants=consts, x=np.array(a['x']),
+                               tag=np.array(a['tags'], dtype=np.int32))
+            for extra_ in ('y', 'z', 'h', 'm', 'rho'):
+                pa.add_property(extra_)
+            pa.set_output_arrays(['x', 'y', 'z', 'h', 'm', 'rho', 'tag',
+                                  'gid', 'pid'])
+        else:
+            pa = get_particle_array(name=a['name'], x=np.array(a['x']),
+                                    tag=np.array(a['tags'], dtype=np.int32),
+                                    constants=consts)
         pa.add_property('uid', type='long', data=np.arange(n) + 100)
         for k, v in a['props'].items():
             pa.add_property(k, type=v['type'], stride=v['stride'],
